@@ -34,7 +34,7 @@ Definition detect_one (do_inspect : bool) (nf : str * file_res) : list line :=
           | Some b =>
             match inspect k b with
             | inr ls => map Out ls ++ [Out []]
-            | inl _ => [Err (name ++ lit ": Unable to inspect"); Out []]
+            | inl _ => map Out (inspect_partial k b) ++ [Err (name ++ lit ": Unable to inspect"); Out []]
             end
           end
         else [])
